@@ -35,7 +35,8 @@ static const char* SEED[4] = {
 static const char REPL[] = ">A-. \n\r\xC3*1/:cXJ";
 #define NREPL 16
 #define NTWO 96          /* two files read into one msa: record counts on / next to the 512-record growth steps */
-#define NSPECIAL (28 + NTWO)    /* 10 oversized shapes + 6 lengths around the 512-byte buffer steps x 3 formats + two-file cases */
+#define NLATE 8          /* more than 50 records, punctuation only in the last ones */
+#define NSPECIAL (28 + NTWO + NLATE)    /* 10 oversized shapes + 6 lengths around the 512-byte buffer steps x 3 formats + two-file cases */
 
 struct mut { int kind; int pos; int arg; };      /* 0 none, 1 truncate at pos, 2 delete line, 3 duplicate line, 4 swap line with next, 5 replace byte pos by REPL[arg] */
 
@@ -163,7 +164,14 @@ static uint64_t secB(int tier)
         return t + NSPECIAL;
 }
 
-uint64_t vh_total(int tier) { return secA(tier) + secB(tier); }
+/* ---- section E: the array entry point kalign() on raw bytes: 2 sequences of 1..2 bytes, 3 sequences of 1 byte ---- */
+static const unsigned char ABYTE[] = {'A', 'c', 'X', 'U', 'J', '1', '*', ' ', '\n', 0x01, 0x7F, 0x80, 0xC3, 0xFC, 0xFF, '-'};
+#define NABYTE 16
+#define NASTR (NABYTE + NABYTE * NABYTE)
+static uint64_t secE(void) { return (uint64_t)NASTR * NASTR + (uint64_t)NABYTE * NABYTE * NABYTE; }
+
+uint64_t vh_total(int tier) { return secA(tier) + secB(tier) + secE(); }
+static int array_decode(uint64_t e, struct kx_set* in, char* desc, size_t dn);
 
 static char* BUF;
 static size_t BUFN;
@@ -279,6 +287,26 @@ static void build_input(uint64_t id, int tier, char* desc, size_t dn)
                         size_t o = 0;
                         int i, k = (int)id;
                         (void)tmp2;
+                        if(k >= 28 + NTWO){
+                                static const int NL[4] = {51, 52, 64, 130};
+                                int q = k - 28 - NTWO, n = NL[q % 4], kind = q / 4;
+                                for(i = 0; i < n; i++){
+                                        const char* tail = "";
+                                        if(i >= n - 2){
+                                                tail = kind ? (i == n - 1 ? "*" : ".") : "-";
+                                        }
+                                        o += (size_t)sprintf(BUF + o, ">late%d\nLKWD%.*s%s%c\n", i, i % 5, "ELAVG", (i == n - 1 || kind) ? tail : "", "ACDEFGHIKL"[i % 10]);
+                                        if(i == n - 2 && !kind){
+                                                o -= 2;
+                                                o += (size_t)sprintf(BUF + o, "-%c\n", "ACDEFGHIKL"[i % 10]);
+                                        }
+                                }
+                                BUFN = o;
+                                if(desc){
+                                        snprintf(desc, dn, "B: %d FASTA records of differing lengths, punctuation (%s) only in the last two", n, kind ? ". and *" : "-");
+                                }
+                                return;
+                        }
                         if(k >= 28){
                                 /* two files into one msa: the first leaves the sequence table exactly full, one short of full, ... */
                                 static const int N1[8] = {1, 2, 511, 512, 513, 1023, 1024, 1025};
@@ -396,6 +424,12 @@ void vh_describe(uint64_t id, int tier, char* buf, size_t n)
 {
         char d[200];
         size_t o, i;
+        if(id >= secA(tier) + secB(tier)){
+                struct kx_set in;
+                array_decode(id - secA(tier) - secB(tier), &in, buf, n);
+                kx_set_free(&in);
+                return;
+        }
         build_input(id, tier, d, sizeof d);
         o = (size_t)snprintf(buf, n, "%s; bytes=\"", d);
         for(i = 0; i < BUFN && i < 160 && o + 8 < n; i++){
@@ -415,12 +449,95 @@ void vh_describe(uint64_t id, int tier, char* buf, size_t n)
         snprintf(buf + o, n - o, "\"%s", BUFN > 160 ? "..." : "");
 }
 
+static int abuild(uint64_t k, char* out)
+{
+        if(k < NABYTE){
+                out[0] = (char)ABYTE[k];
+                out[1] = 0;
+                return 1;
+        }
+        k -= NABYTE;
+        out[0] = (char)ABYTE[k / NABYTE];
+        out[1] = (char)ABYTE[k % NABYTE];
+        out[2] = 0;
+        return 2;
+}
+
+static int array_decode(uint64_t e, struct kx_set* in, char* desc, size_t dn)
+{
+        char b[3][4];
+        int n, i, hasgap = 0;
+        size_t o = 0;
+        int len[3];
+        if(e < (uint64_t)NASTR * NASTR){
+                n = 2;
+                len[0] = abuild(e / NASTR, b[0]);
+                len[1] = abuild(e % NASTR, b[1]);
+        }else{
+                e -= (uint64_t)NASTR * NASTR;
+                n = 3;
+                for(i = 0; i < 3; i++){
+                        b[i][0] = (char)ABYTE[e % NABYTE];
+                        b[i][1] = 0;
+                        len[i] = 1;
+                        e /= NABYTE;
+                }
+        }
+        kx_set_init(in);
+        if(desc){
+                o = (size_t)snprintf(desc, dn, "E: kalign() on %d byte strings:", n);
+        }
+        for(i = 0; i < n; i++){
+                char nm[8];
+                int j;
+                snprintf(nm, sizeof nm, "SEQ%d", i + 1);
+                kx_set_add(in, b[i], nm);
+                for(j = 0; j < len[i]; j++){
+                        hasgap |= b[i][j] == '-';
+                        if(desc && o + 8 < dn){
+                                o += (size_t)snprintf(desc + o, dn - o, "%s\\x%02X", j ? "" : " ", (unsigned char)b[i][j]);
+                        }
+                }
+        }
+        return hasgap;
+}
+
+static int array_case(uint64_t e, int* success)
+{
+        struct kx_set in;
+        char** rows = NULL;
+        int alnlen = 0, rc, hasgap;
+        char why[300];
+        *success = 0;
+        hasgap = array_decode(e, &in, NULL, 0);
+        vh_count("library_calls");
+        rc = kx_kalign_arr(&in, 1, KALIGN_TYPE_UNDEFINED, -1.0f, -1.0f, -1.0f, &rows, &alnlen);
+        if(rc != OK){
+                vh_count("array_calls_rejected");
+        }else{
+                /* a '-' given as a residue cannot be told from a gap in the result: the C01 predicate is applied to the other inputs */
+                if(!hasgap && kx_check_alignment(&in, in.n, rows, NULL, alnlen, why, sizeof why)){
+                        char sig[64];
+                        snprintf(sig, sizeof sig, "sem:invalid-alignment.%.*s", (int)(strchr(why, ':') - why), why);
+                        vh_fail(sig, "kalign() returned OK but the rows are not an alignment of the byte strings given: %s", why);
+                }
+                kx_free_rows(rows, in.n);
+                vh_count("array_calls_on_raw_bytes_succeeded");
+                *success = 1;
+        }
+        kx_set_free(&in);
+        return VH_OK;
+}
+
 static int pipeline(uint64_t id, int tier, int* success)
 {
         const char* path = vh_tmp("c05.in");
         struct msa* m = NULL;
         int rc;
         *success = 0;
+        if(id >= secA(tier) + secB(tier)){
+                return array_case(id - secA(tier) - secB(tier), success);
+        }
         build_input(id, tier, NULL, 0);
         vh_write_file(path, BUF, BUFN);
         if(id >= secA(tier)){
